@@ -493,6 +493,20 @@ def handed (it : Nat) (rows : List (List α)) : Nat → List (Op α) → List (L
     else handed it rows pos ops
   | pos, _ :: ops => handed it rows pos ops
 
+/-- **Several batchings of one frame alive at once.**  `to_batches` is a generator function: the position of a
+batching is the loop variable of *that* generator (`for i in range(0, self.rowcount, batch_size)`), not state of the
+frame.  Batching `i` has size `size i` and stands at its batch number `pos i`; `sched` names the batching that is
+advanced next (`next(g_i)`); the outcome is what each `next` handed out (`none`: `StopIteration`). -/
+def advance (rows : List α) (size : Nat → Nat) : (Nat → Nat) → List Nat → List (Nat × Option (List α))
+  | _, [] => []
+  | pos, i :: sched =>
+    (i, (batches rows (size i))[pos i]?) ::
+      advance rows size (fun k => if k = i then pos i + 1 else pos k) sched
+
+/-- The batches batching `i` handed out, in order. -/
+def yielded (i : Nat) (out : List (Nat × Option (List α))) : List (List α) :=
+  out.filterMap fun jb => if jb.1 = i then jb.2 else none
+
 /-- What the implementation state shows of a register (`none`: a spent frame shows nothing). -/
 def IReg.view : IReg α → Option (SReg α)
   | .frame sch _ rows => some (.frame sch rows)
